@@ -1,6 +1,7 @@
 package props
 
 import (
+	"fmt"
 	"testing"
 
 	"pgregory.net/rapid"
@@ -54,13 +55,74 @@ func TestC05(t *testing.T) {
 			addCollidingDefs(rt, c, f, "numeric")
 		}
 		addOptionalDefaults(rt, c, f, 0.25, o)
-		cs := caseOf(baseConfig(), []string{f.RelPath}, f)
+		f.Schema = rapid.SampledFrom(schemaURIs).Draw(rt, "schemauri")
+		cfg := baseConfig()
+		if rapid.IntRange(0, 2).Draw(rt, "minsized") == 0 {
+			// the sized type may drop the bound it implies, never the other one
+			cfg.MinSizedInts = true
+			if hasIntegerEnum(f) && c.Avoid("enums.typed_integer_min_sized") {
+				c.ExcludedMap()["enums.typed_integer_min_sized"]++
+				stripIntegerEnums(f)
+			}
+			if c.Avoid("minsized.uint8_array_items") {
+				widenIntegerItems(c, f)
+			}
+			addTypeLimitBounds(rt, c, f)
+		}
+		cs := caseOf(cfg, []string{f.RelPath}, f)
 		countShapes(c, f, cs.Config)
 		jobs := buildJobs(rt, c, f.Root, progRoot, plan, o, cs)
 		c.Sample(sampleOf(cs, jobs))
 		countNumericShapes(c, f)
 		return &RunCase{Case: cs, Jobs: jobs, Model: modelIfSingle(cs, f)}
 	}, stdJudge)
+}
+
+// addTypeLimitBounds: integer properties with one bound exactly on a limit of a
+// sized type and the other bound strictly inside it, in the inclusive, the
+// numeric-exclusive and the boolean-exclusive form.
+func addTypeLimitBounds(t *rapid.T, c *core.Ctx, f *model.File) {
+	if f.Root.Kind != model.KObject {
+		return
+	}
+	fp := func(v float64) *float64 { return &v }
+	n := rapid.IntRange(1, 3).Draw(t, "ntypelimit")
+	for i := 0; i < n; i++ {
+		lim := rapid.SampledFrom([][2]float64{{0, 255}, {-128, 127}, {0, 65535}, {-32768, 32767}, {0, 4294967295}, {-2147483648, 2147483647}}).Draw(t, "typelimit")
+		span := lim[1] - lim[0]
+		inner := lim[0] + float64(rapid.IntRange(1, 90).Draw(t, "innerpct"))*span/100
+		inner = float64(int64(inner))
+		node := &model.Node{Kind: model.KInteger}
+		onLimitIsMin := rapid.Bool().Draw(t, "limitmin")
+		form := rapid.IntRange(0, 2).Draw(t, "innerform")
+		if onLimitIsMin {
+			node.Minimum = fp(lim[0])
+			switch form {
+			case 0:
+				node.Maximum = fp(inner)
+			case 1:
+				node.ExclMax = &model.Excl{N: inner}
+			default:
+				node.Maximum, node.ExclMax = fp(inner), &model.Excl{IsBool: true, B: true}
+			}
+		} else {
+			node.Maximum = fp(lim[1])
+			switch form {
+			case 0:
+				node.Minimum = fp(inner)
+			case 1:
+				node.ExclMin = &model.Excl{N: inner}
+			default:
+				node.Minimum, node.ExclMin = fp(inner), &model.Excl{IsBool: true, B: true}
+			}
+		}
+		name := fmt.Sprintf("zlimit%d", i)
+		f.Root.Props = append(f.Root.Props, model.Prop{Name: name, Node: node})
+		if rapid.Bool().Draw(t, "limitreq") {
+			f.Root.Required = append(f.Root.Required, name)
+		}
+		c.Count(fmt.Sprintf("shape.bound_on_type_limit.form%d", form))
+	}
 }
 
 func countNumericShapes(c *core.Ctx, f *model.File) {
